@@ -483,9 +483,9 @@ def install(g, owner):
     route("select_for_mode", select_for_mode, lambda c, mode, tier: True)
     if "match_finding" in g:
         route("match_finding", lambda c, io, mode: None)
-    if "mode_diff_ok" in g:
-        # the three modes legitimately differ exactly where a subscript is out of range
-        route("mode_diff_ok", lambda c, a, b, mode: bool(c.get("_unsafe")))
+    # the three modes legitimately differ exactly where a subscript is out of range / an unbound local is read (undefined in
+    # compiled code); installed whether or not the owner has a `mode_diff_ok` of its own (the thorough tier diffs the modes)
+    route("mode_diff_ok", lambda c, a, b, mode: bool(c.get("_unsafe")), lambda c, a, b, mode: False)
     if "compare" in g:
         route("compare", compare)
     else:
